@@ -1,8 +1,9 @@
 """C08 — acceptance is decided exactly by the documented width rules."""
 from props.common_prog import judge_prog
 
-THEOREM_MODULES = ["Hcl.Theorems.C08", "Hcl.Tie.Ops", "Hcl.Tie.Grammar", "Hcl.Tie.PinsCheck", "Hcl.Theorems.C09Exact"]
-THEOREMS = {"Hcl.Theorems.C09Exact": ["C09_accepted_iff_faultless", "C09_faultless_accepted", "C09_accepted_faultless", "C08_constants_exact", "C09_names_exact", "C09_banks_exact", "C09_actions_exact", "Program_new_ok_iff", "Program_new_complete", "step1_gate_nil_iff", "resolveConstants_ok_iff", "resolveConstants_table", "step3Of_errors_nil_iff", "assignmentsToActions_complete", "assignmentsToActions_ok_iff"],
+THEOREM_MODULES = ["Hcl.Theorems.C08", "Hcl.Tie.Ops", "Hcl.Tie.Grammar", "Hcl.Tie.PinsCheck", "Hcl.Theorems.C09Exact", "Hcl.Theorems.C08Spec"]
+THEOREMS = {"Hcl.Theorems.C08Spec": ["C08_spec_accepts_sound", "C08_spec_accepts_complete", "C08_spec_faults_iff_accepted", "accepted_design_tables", "SF.cyclicNodes_nil_iff", "SF.faults_nil_iff"],
+            "Hcl.Theorems.C09Exact": ["C09_accepted_iff_faultless", "C09_faultless_accepted", "C09_accepted_faultless", "C08_constants_exact", "C09_names_exact", "C09_banks_exact", "C09_actions_exact", "Program_new_ok_iff", "Program_new_complete", "step1_gate_nil_iff", "resolveConstants_ok_iff", "resolveConstants_table", "step3Of_errors_nil_iff", "assignmentsToActions_complete", "assignmentsToActions_ok_iff"],
             "Hcl.Theorems.C08": ["C08_accepted_defaults", "C08_accepted_defaults_stmt", "step3_rule", "step1Of_banksRaw", "C08_accept_iff_rules", "C08_reject_iff_rule_violated", "C08_target_rule",
                                  "C08_width_is_semantic_width", "C08_accepted", "C08_accepted_constants", "assignmentsToActions_rules", "resolveConstants_rules", "check_eq_typeOf", "checkOpts_eq", "checkItems_eq"],
             "Hcl.Tie.Ops": ["Tie.Ops.binopKind", "Tie.Ops.combineText", "Tie.Ops.maxText", "Tie.Ops.defaultFeatures",
